@@ -57,6 +57,18 @@ static void block_adapter_case(long n, long m, uint64_t ms, int density, Result 
     e = same_matrix(entries(*U), a, true); if (!e.empty()) res.fail(sig("dense-definition", "unblock_matrix-values", fmt("block size %d: %s", BS, e.c_str())));
 }
 
+// enumerated small patterns: bit (i*m + j) of 'bits' says whether entry (i,j) is stored; values are dyadic rationals (exact products and sums)
+static gen::Csr from_bits(long n, long m, uint64_t bits, uint64_t vseed, bool reversed) {
+    static const double tbl[] = { 1, -1, 2, 0.5, -3, 0.25, 5, -0.75 };
+    gen::Csr A; A.n = n; A.m = m; A.ptr.push_back(0);
+    for (long i = 0; i < n; ++i) {
+        if (!reversed) { for (long j = 0; j < m; ++j) if ((bits >> (i * m + j)) & 1) { A.col.push_back(j); A.val.push_back(tbl[(vseed + i * 7 + j * 13) % 8]); } }
+        else { for (long j = m - 1; j >= 0; --j) if ((bits >> (i * m + j)) & 1) { A.col.push_back(j); A.val.push_back(tbl[(vseed + i * 7 + j * 13) % 8]); } }
+        A.ptr.push_back((ptrdiff_t)A.col.size());
+    }
+    return A;
+}
+
 Plan generate(uint64_t seed, uint64_t run, bool thorough) {
     sim::rng r(seed, "world", run);
     Plan p;
@@ -75,6 +87,22 @@ Plan generate(uint64_t seed, uint64_t run, bool thorough) {
     p.set("power_iters", r.range(1, 12), 1);
     p.set("nt", draw_nt(r, 1, 32), 1);
     draw_schedule(r, p.sched, (int)p.get("nt"));
+    // the quantifier's "exhaustively over all patterns up to 3x3 / 4x4": enumerated pattern pairs with exact dyadic values.  Quick tier:
+    // drawn (shapes up to 4x4); thorough tier: a fifth of the runs walk all 2^18 pairs of 3x3 patterns by run index for the product
+    // (thread counts on both sides of the SpGEMM switch), all 2^16 4x4 patterns for the transpose, pairs of 3x3 patterns for the sum
+    if (thorough && r.chance(0.2)) {
+        int ek = (run >> 21) % 4 == 3 ? ((run >> 23) & 1 ? K_SUM : K_TRANSPOSE) : K_PRODUCT;
+        p.set("kernel", ek, ek); p.set("enum", 1, 1);
+        static const long ents[] = { 1, 2, 3, 4, 17, 18, 32, 5 };
+        if (ek == K_TRANSPOSE) { p.set("n", 4, 0); p.set("m", 4, 1); p.set("abits", (long)(run & 0xffff), 0); p.set("bbits", 0, 0); }
+        else { p.set("n", 3, 0); p.set("m", 3, 1); p.set("k", 3, 1); p.set("abits", (long)(run & 511), 0); p.set("bbits", (long)((run >> 9) & 511), 0); }
+        p.set("nt", ents[(run >> 18) & 7], 1);
+        draw_schedule(r, p.sched, (int)p.get("nt"));
+    } else if ((k == K_PRODUCT || k == K_TRANSPOSE || k == K_SUM) && r.chance(0.15)) {
+        long en = r.range(1, 4), em = r.range(1, 4), ekk = r.range(1, 4);
+        p.set("enum", 1, 1); p.set("n", en, 0); p.set("m", em, 1); p.set("k", ekk, 1);
+        p.set("abits", (long)(r.next() & 0xffff), 0); p.set("bbits", (long)(r.next() & 0xffff), 0);
+    }
     return p;
 }
 
@@ -85,11 +113,14 @@ Result execute(const Plan &p) {
     bool unsorted = p.get("unsorted") != 0;
     auto sig = [&](const char *oracle, const char *clause, const std::string &detail) { Violation v; v.oracle = oracle; v.add("component", kern_names[kern]); v.add("clause", clause); v.add("spgemm", nt > 16 ? "rmerge" : "saad"); v.add("input", unsorted ? "unsorted" : "sorted"); v.detail = detail; return v; };
     std::string sample_extra;
+    const bool en = p.get("enum", 0) != 0 && n >= 0 && n <= 4 && m >= 1 && m <= 4 && kk >= 1 && kk <= 4;
+    const uint64_t abits = (uint64_t)p.get("abits", 0), bbits = (uint64_t)p.get("bbits", 0);
+    if (en) res.counts["enumerated_small_pattern_worlds"]++;
     sim::RunStatus st = world(nt, p.sched, [&]() {
         try {
         switch (kern) {
         case K_TRANSPOSE: {
-            gen::Csr A = gen::make_rect(n, m, ms, (int)p.get("density"), true, unsorted);
+            gen::Csr A = en ? from_bits(n, m, abits, ms, unsorted) : gen::make_rect(n, m, ms, (int)p.get("density"), true, unsorted);
             auto M = to_crs(A); auto T = be::transpose(*M);
             std::string wf = crs_wellformed(*T); if (!wf.empty()) res.fail(sig("wellformed", "structure", wf));
             if (T->nrows != (size_t)m || T->ncols != (size_t)n) res.fail(sig("dense-definition", "shape", fmt("transpose is %zu x %zu", T->nrows, T->ncols)));
@@ -98,7 +129,7 @@ Result execute(const Plan &p) {
             if (has_duplicates(*T)) res.fail(sig("wellformed", "duplicates", "duplicate column in a transposed row"));
             break; }
         case K_PRODUCT: {
-            gen::Csr A = gen::make_rect(n, kk, ms, (int)p.get("density"), true, unsorted), B = gen::make_rect(kk, m, ms + 1, (int)p.get("density"), true, unsorted);
+            gen::Csr A = en ? from_bits(n, kk, abits, ms, unsorted) : gen::make_rect(n, kk, ms, (int)p.get("density"), true, unsorted), B = en ? from_bits(kk, m, bbits, ms + 3, unsorted) : gen::make_rect(kk, m, ms + 1, (int)p.get("density"), true, unsorted);
             auto Ma = to_crs(A), Mb = to_crs(B);
             auto Cm = be::product(*Ma, *Mb, p.get("sortflag") != 0);
             std::string wf = crs_wellformed(*Cm); if (!wf.empty()) { res.fail(sig("wellformed", "structure", wf)); break; }
@@ -123,7 +154,7 @@ Result execute(const Plan &p) {
             res.counts["spgemm_direct_calls"] += 2;
             break; }
         case K_SUM: {
-            gen::Csr A = gen::make_rect(n, m, ms, (int)p.get("density"), true, unsorted), B = gen::make_rect(n, m, ms + 1, (int)p.get("density"), true, unsorted);
+            gen::Csr A = en ? from_bits(n, m, abits, ms, unsorted) : gen::make_rect(n, m, ms, (int)p.get("density"), true, unsorted), B = en ? from_bits(n, m, bbits, ms + 3, unsorted) : gen::make_rect(n, m, ms + 1, (int)p.get("density"), true, unsorted);
             auto Ma = to_crs(A), Mb = to_crs(B); double al = (double)p.get("alpha") / 2, bt = (double)p.get("beta") / 2;
             auto S = be::sum(al, *Ma, bt, *Mb, p.get("sortflag") != 0);
             std::string wf = crs_wellformed(*S); if (!wf.empty()) { res.fail(sig("wellformed", "structure", wf)); break; }
@@ -274,10 +305,11 @@ Result execute(const Plan &p) {
     if (st.status) res.fail(sig("world-terminates", "deadlock-or-budget", st.blocked));
     res.counts[std::string("kernel_") + kern_names[kern]]++;
     res.nontrivial = (n >= 2 || kern == K_POINTWISE) && (nt >= 2 || true);
-    uint64_t key = sim::hash_combine(ms, (uint64_t)(kern * 1000003 + n * 10007 + m * 101 + kk)); key = sim::hash_combine(key, (uint64_t)(nt * 4 + p.get("unsorted") * 2 + p.get("sortflag"))); key = sim::hash_combine(key, (uint64_t)p.get("density") * 7 + p.get("bs"));
+    uint64_t key = sim::hash_combine(ms, (uint64_t)(kern * 1000003 + n * 10007 + m * 101 + kk)); key = sim::hash_combine(key, (uint64_t)(nt * 4 + p.get("unsorted") * 2 + p.get("sortflag"))); key = sim::hash_combine(key, (uint64_t)p.get("density") * 7 + p.get("bs")); if (en) key = sim::hash_combine(key, (abits << 20) ^ bbits ^ (1ull << 50));
     res.key = key; res.hash = sim::hash_combine(res.hash, key);
     js::Value s = js::Value::object();
     s.set("kernel", kern_names[kern]); s.set("n", n); s.set("m", m); s.set("k", kk); s.set("density_pct", p.get("density")); s.set("unsorted_rows", p.get("unsorted")); s.set("nt", nt);
+    if (en) { s.set("enumerated_pattern", 1L); s.set("abits", (long)abits); s.set("bbits", (long)bbits); }
     s.set("spgemm", nt > 16 ? "rmerge" : "saad"); s.set("strategy", sim::strategy_name(p.sched.strategy)); s.set("deviations_taken", (long)st.deviations.size());
     res.sample = s;
     return res;
